@@ -928,6 +928,7 @@ void vf_search(const vf::Args& a)
 	// (1) fixed grid: every size of the boundary list through put / write / TextFile::write, then copy and move
 	[&]() {
 		std::vector<long long> sizes = {0, 1, 2, 3, 254, 255, 256, 509, 510, 511, 65535, 65536, 65537, 131072};
+		sizes.push_back((1 << 20) + 1); // larger than any plausible copy buffer
 		if (!a.quick()) {
 			sizes.push_back(1 << 20);
 			sizes.push_back(4 << 20);
